@@ -1,5 +1,5 @@
 (* Properties/C05.v — LIMIT and ORDER BY behave identically in every output mode and nesting.
-   Statements only; proofs in Proofs/OperatorsProofs.v and Proofs/LimitOrderProofs.v.
+   Statements only; proofs in Proofs/OperatorsProofs.v, LimitOrderProofs.v, LimitPruneProofs.v, LimitOracleProofs.v.
    Model: Model/Operators.v (run_limit = Limit node, run_ost = OrderSensitiveTransform, run_printer =
    batch.OutputPrinter) and Model/LimitOrder.v (printed mode nested keys limit noretr inp = the rows that reach
    the output for `SELECT ... [ORDER BY keys] LIMIT n`, following cmd/root.go's output switch for the top level
@@ -8,7 +8,7 @@
      is_top_n ks n rows out : is_limit_of, out is sorted by the keys, and the rows left out all sort at or
                               after every printed row (ties at the boundary may break either way)
    [rows] is any list that represents the consolidated input (duplicates listed individually). *)
-From Octo Require Import Operators LimitOrder OperatorsProofs LimitOrderProofs ChangelogLemmas.
+From Octo Require Import Operators LimitOrder OperatorsProofs LimitOrderProofs LimitPruneProofs LimitOracleProofs LimitNestedProofs ChangelogLemmas.
 
 (* LIMIT n without ORDER BY: every output mode, top level and nested, sources with and without retractions
    (noretr is Schema.NoRetractions: when it is set the input really has no retraction). *)
@@ -19,12 +19,66 @@ Theorem C05_limit : forall n0 n inp rows mode nested noretr, 0 <= n ->
 Proof. intros n0 n inp rows mode nested noretr Hn Ha V R. exact (limit_printed n0 n inp rows Hn Ha V R mode nested noretr). Qed.
 Print Assumptions C05_limit.
 
-(* ORDER BY keys LIMIT n.  Full statement: for every mode, nesting and noretr (with insert-only input when
-   noretr) the printed rows are a top-n.  PROVED PART: sources whose schema allows retractions (noretr = false,
-   e.g. below a GROUP BY with a counting trigger or a join of such), where OrderSensitiveTransform and the printer
-   keep the whole counted tree.  MISSING: noretr = true, where both prune the tree with DeleteMax while reading
-   (the pruned tree is the first n items of the unpruned one; that simulation is not proved).  That path is
-   covered by the differential run only (exact tie + is_top_n oracle on every case, in-process and through the CLI). *)
+(* ORDER BY keys LIMIT n: for every output mode, nesting and NoRetractions setting the printed rows are a top-n of
+   the consolidated input.  When Schema.NoRetractions is set the input has no retraction (that is what the flag
+   means) and OrderSensitiveTransform / the printer prune their counted tree with DeleteMax while reading;
+   C05_prune_safe below shows that the pruning changes nothing that is printed. *)
+Theorem C05_order_limit : forall n0 ks n inp rows mode nested noretr, key_congruent ks -> ks <> [] -> 0 <= n ->
+  arity_is n0 (records inp) -> valid_changelog (records inp) = true -> represents rows (records inp) ->
+  (noretr = true -> insert_only (records inp) = true) ->
+  (nested = true -> mode <> BatchTable) ->
+  exists out, printed mode nested ks (Some n) noretr inp = Ok out /\ is_top_n ks n rows out.
+Proof. intros n0 ks n inp rows mode nested noretr Hk NE Hn Ha V R Hi. exact (order_limit_printed_full n0 ks n inp rows noretr Hk Hn Ha V R Hi NE mode nested). Qed.
+Print Assumptions C05_order_limit.
+
+(* nested and shown as a table: the table holds exactly the rows the inner ORDER BY ... LIMIT selected
+   (the table itself is ordered by values, as the enclosing query has no ORDER BY) *)
+Theorem C05_order_limit_nested_table : forall n0 ks n inp rows noretr, key_congruent ks -> ks <> [] -> 0 <= n ->
+  arity_is n0 (records inp) -> valid_changelog (records inp) = true -> represents rows (records inp) ->
+  (noretr = true -> insert_only (records inp) = true) ->
+  exists inner out, eager_choice ks (Some n) noretr inp = Ok inner /\ is_top_n ks n rows (rows_of inner) /\
+                    printed BatchTable true ks (Some n) noretr inp = Ok out /\
+                    forall x, count_rows out x = count_rows (rows_of inner) x.
+Proof. intros n0 ks n inp rows noretr Hk NE Hn Ha V R Hi. exact (order_limit_nested_table_full n0 ks n inp rows noretr Hk Hn Ha V R Hi NE). Qed.
+Print Assumptions C05_order_limit_nested_table.
+
+(* ... so what the table shows is itself a top-n of the input, as a set (is_top_n_set = is_top_n without the order of
+   printing; this is the Prop the oracle is_top_n_setb decides) *)
+Theorem C05_order_limit_nested_table_set : forall n0 ks n inp rows noretr, key_congruent ks -> ks <> [] -> 0 <= n ->
+  arity_is n0 (records inp) -> valid_changelog (records inp) = true -> represents rows (records inp) ->
+  (noretr = true -> insert_only (records inp) = true) ->
+  exists out, printed BatchTable true ks (Some n) noretr inp = Ok out /\ is_top_n_set ks n rows out.
+Proof. exact order_limit_nested_table_set. Qed.
+Print Assumptions C05_order_limit_nested_table_set.
+
+(* the simulation behind it: on an insert-only input the pruned tree is at every moment the first n items of the
+   unpruned tree (Proofs/LimitPruneProofs.v: prune_step, prune_run), every item stands for at least one row, so both
+   nodes emit exactly what they emit without pruning *)
+Theorem C05_prune_safe : forall n0 ks n inp, key_congruent ks -> 0 <= n ->
+  arity_is n0 (records inp) -> insert_only (records inp) = true ->
+  run_ost ks (Some n) true inp = run_ost ks (Some n) false inp /\
+  run_printer ks (Some n) true inp = run_printer ks (Some n) false inp.
+Proof.
+  intros n0 ks n inp Hk Hn Ha Hi. split; [exact (run_ost_prune_eq n0 ks n Hk Hn inp Ha Hi) | exact (run_printer_prune_eq n0 ks n Hk Hn inp Ha Hi)].
+Qed.
+Print Assumptions C05_prune_safe.
+
+(* the two tree users one by one, every NoRetractions setting *)
+Theorem C05_order_sensitive_transform : forall n0 ks n inp rows noretr, key_congruent ks -> 0 <= n ->
+  arity_is n0 (records inp) -> valid_changelog (records inp) = true -> represents rows (records inp) ->
+  (noretr = true -> insert_only (records inp) = true) ->
+  exists out, run_ost ks (Some n) noretr inp = Ok out /\ insert_only (records out) = true /\ is_top_n ks n rows (rows_of out).
+Proof. intros n0 ks n inp rows noretr Hk Hn Ha V R Hi. exact (ost_top_n_full n0 ks n inp rows noretr Hk Hn Ha V R Hi). Qed.
+Print Assumptions C05_order_sensitive_transform.
+Theorem C05_batch_printer : forall n0 ks n inp rows noretr, key_congruent ks -> 0 <= n ->
+  arity_is n0 (records inp) -> valid_changelog (records inp) = true -> represents rows (records inp) ->
+  (noretr = true -> insert_only (records inp) = true) ->
+  exists out, run_printer ks (Some n) noretr inp = Ok out /\ is_top_n ks n rows out.
+Proof. intros n0 ks n inp rows noretr Hk Hn Ha V R Hi. exact (printer_top_n_full n0 ks n inp rows noretr Hk Hn Ha V R Hi). Qed.
+Print Assumptions C05_batch_printer.
+
+(* the earlier statements for sources that can retract (noretr = false) are the corresponding special cases,
+   kept under their names *)
 Theorem C05_order_limit_partial : forall n0 ks n inp rows mode nested, key_congruent ks -> ks <> [] -> 0 <= n ->
   arity_is n0 (records inp) -> valid_changelog (records inp) = true -> represents rows (records inp) ->
   (nested = true -> mode <> BatchTable) ->
@@ -32,8 +86,6 @@ Theorem C05_order_limit_partial : forall n0 ks n inp rows mode nested, key_congr
 Proof. intros n0 ks n inp rows mode nested Hk NE Hn Ha V R. exact (order_limit_printed n0 ks n inp rows Hk Hn Ha V R NE mode nested). Qed.
 Print Assumptions C05_order_limit_partial.
 
-(* nested and shown as a table: the table holds exactly the rows the inner ORDER BY ... LIMIT selected
-   (the table itself is ordered by values, as the enclosing query has no ORDER BY) *)
 Theorem C05_order_limit_nested_table_partial : forall n0 ks n inp rows, key_congruent ks -> ks <> [] -> 0 <= n ->
   arity_is n0 (records inp) -> valid_changelog (records inp) = true -> represents rows (records inp) ->
   exists inner out, eager_choice ks (Some n) false inp = Ok inner /\ is_top_n ks n rows (rows_of inner) /\
@@ -42,7 +94,7 @@ Theorem C05_order_limit_nested_table_partial : forall n0 ks n inp rows, key_cong
 Proof. intros n0 ks n inp rows Hk NE Hn Ha V R. exact (order_limit_nested_table n0 ks n inp rows Hk Hn Ha V R NE). Qed.
 Print Assumptions C05_order_limit_nested_table_partial.
 
-(* the three implementations one by one *)
+(* the Limit node alone, and the noretr = false special cases of the two tree users *)
 Theorem C05_limit_node : forall n inp rows, 0 <= n -> insert_only (records inp) = true ->
   represents rows (records inp) -> is_limit_of n rows (rows_of (run_limit n inp)).
 Proof. exact limit_node_is_limit_of. Qed.
@@ -63,10 +115,25 @@ Theorem C05_printer_above_limit_never_prunes : forall ks n inp, Z.of_nat (length
 Proof. exact run_printer_small. Qed.
 Print Assumptions C05_printer_above_limit_never_prunes.
 
-(* the executable oracle used on the implementation's output implies the Prop for the limit clause *)
+(* the executable oracles applied to the implementation's output decide exactly the Props above *)
 Theorem C05_oracle_limit_sound : forall n rows out, is_limit_ofb n rows out = true -> is_limit_of n rows out.
 Proof. exact is_limit_ofb_sound. Qed.
 Print Assumptions C05_oracle_limit_sound.
+Theorem C05_oracle_limit_iff : forall n rows out, is_limit_ofb n rows out = true <-> is_limit_of n rows out.
+Proof. exact is_limit_ofb_iff. Qed.
+Print Assumptions C05_oracle_limit_iff.
+(* soundness holds for every key function; completeness needs keys that do not tell Compare-equal rows apart *)
+Theorem C05_oracle_top_n_sound : forall ks n rows out, is_top_nb ks n rows out = true -> is_top_n ks n rows out.
+Proof. exact is_top_nb_sound. Qed.
+Print Assumptions C05_oracle_top_n_sound.
+Theorem C05_oracle_top_n_iff : forall ks n rows out, key_congruent ks ->
+  (is_top_nb ks n rows out = true <-> is_top_n ks n rows out).
+Proof. exact is_top_nb_iff. Qed.
+Print Assumptions C05_oracle_top_n_iff.
+Theorem C05_oracle_top_n_set_iff : forall ks n rows out, key_congruent ks ->
+  (is_top_n_setb ks n rows out = true <-> is_top_n_set ks n rows out).
+Proof. exact is_top_n_setb_iff. Qed.
+Print Assumptions C05_oracle_top_n_set_iff.
 
 (* Non-vacuity: a changelog with duplicates and a retraction; LIMIT 2 of it in csv output. *)
 Example C05_hypotheses_satisfiable :
